@@ -508,12 +508,13 @@ class G:
                 self.unit(1, r.choice(["subroutine", "function"]), "msub", allow_contains=False)
             self.emit(0, "end module mod1", feat="module", closes=True)
             self.modules.append("mod1")
-        if self.ok("block_data") and r.random() < 0.15:
-            self.emit(0, "block data bdat", feat="block_data", opens=True)
+        if self.ok("block_data") and r.random() < 0.3:
+            named = r.random() < 0.5          # a BLOCK DATA unit need not have a name
+            self.emit(0, "block data bdat" if named else "block data", feat="block_data", opens=True)
             self.emit(1, "real cx, cy", feat="block_data")
             self.emit(1, "common /blk/ cx, cy", feat="block_data")
             self.emit(1, "data cx, cy /1.0, 2.0/", feat="block_data")
-            self.emit(0, "end block data bdat", feat="block_data", closes=True)
+            self.emit(0, "end block data bdat" if named else r.choice(["end block data", "end"]), feat="block_data", closes=True)
         for q in range(r.randrange(0, 3)):
             self.unit(0, r.choice(["subroutine", "function"]), "ext%d" % q)
         if r.random() < 0.7 or not self.out:
